@@ -238,10 +238,10 @@ class QuicSession:
             logging.warning(f"Could not decrypt Quic Packet: {quic_packet.dcid}")
 
     def packet_isserver(self, packet, dcid):
-        # a connection id used by both endpoints (e.g. both zero-length) says nothing about the direction
-        if dcid in self.server_cids and dcid not in self.client_cids:
+        # a zero-length connection id, or one used by both endpoints, says nothing about the direction
+        if len(dcid) > 0 and dcid in self.server_cids and dcid not in self.client_cids:
             return False
-        elif dcid in self.client_cids and dcid not in self.server_cids:
+        elif len(dcid) > 0 and dcid in self.client_cids and dcid not in self.server_cids:
             return True
         elif packet.ip_src == self.client_ip and packet.sport == self.client_port:
             return False
